@@ -12,7 +12,9 @@ Record gd := mkGd { g_items : items;      (* self._items *)
 
 Inductive gop :=
 | GOk (o : op)          (* an operation of the MultiDict interface with text arguments *)
-| GBadAdd (k : str).    (* d.add(k, None): a value that cannot be encoded; on_change refuses it *)
+| GBadAdd (k : str)     (* d.add(k, None): a value that cannot be encoded; on_change refuses it *)
+| GBadSet (k : str).    (* d[k] = None: the old pairs of k are removed from self._items directly (no write-back of the
+                           deletion), the pair is appended, on_change refuses it and restores the snapshot *)
 
 Definition AttributeError : str := [65;116;116;114;105;98;117;116;101;69;114;114;111;114]%N.
 Definition is_err (v : val) : bool := match v with VErr _ => true | _ => false end.
@@ -27,6 +29,8 @@ Definition gstep (g : gd) (o : gop) : gd * val :=
       else (mkGd l' l' l', ret)                   (* on_change: QUERY_STRING and the snapshot follow the items *)
   | GBadAdd k =>
       (* MultiDict.add appends (k, None); on_change cannot encode it, restores self._items[:] = self._written, re-raises *)
+      (mkGd (g_written g) (g_written g) (g_env g), VErr AttributeError)
+  | GBadSet k =>
       (mkGd (g_written g) (g_written g) (g_env g), VErr AttributeError)
   end.
 
